@@ -58,6 +58,7 @@ class _PathState:
         self.known = []  # known-finding entries applicable to the running obligation
         self.checks_reached = 0
         self.notes = []
+        self.runs = 0
 
 
 _STATE = _PathState()
@@ -78,6 +79,11 @@ def assume(cond) -> None:
 
 def cover(label: str) -> None:
     _STATE.covers.add(label)
+
+
+def count_runs(n: int) -> None:
+    """A path that executed n concrete runs of the real code in a plain loop (block of consecutive choice values)."""
+    _STATE.runs += n
 
 
 def note(x) -> None:
@@ -124,10 +130,20 @@ def pick(v, n: int) -> int:
     """Concretise v in range(n): forks one path per value under the tracer."""
     assume(0 <= v)
     assume(v < n)
-    for i in range(n - 1):
-        if v == i:
-            return i
-    return n - 1
+    if n <= 4:
+        for i in range(n - 1):
+            if v == i:
+                return i
+        return n - 1
+    # bisection: log2(n) solver-decided branches per path instead of up to n
+    lo, hi = 0, n
+    while hi - lo > 1:
+        mid = (lo + hi) // 2
+        if v < mid:
+            hi = mid
+        else:
+            lo = mid
+    return lo
 
 
 def pick_from(v, options):
@@ -195,6 +211,7 @@ class JobResult:
     exhausted: bool
     paths: int = 0
     completed: int = 0
+    runs: int = 0  # concrete executions of the real code (>= completed when a path loops over a block of choices)
     discarded: int = 0
     unknown: int = 0
     nontrivial: int = 0
@@ -310,6 +327,7 @@ def run_native(ob: Obligation, args: dict, known: Optional[list] = None):
     _STATE.known = known or []
     _STATE.checks_reached = 0
     _STATE.notes = []
+    _STATE.runs = 0
     try:
         ob.fn(**args)
         return ("pass", None, None)
@@ -397,6 +415,7 @@ def explore(ob: Obligation, fixed: dict, budget_s: float, known: list, seed: int
                     _STATE.known = known
                     _STATE.checks_reached = 0
                     _STATE.notes = []
+                    _STATE.runs = 0
                     call_kwargs = dict(fixed)
                     call_kwargs.update(args.arguments)
                     _STATE.args = call_kwargs
@@ -448,6 +467,7 @@ def explore(ob: Obligation, fixed: dict, budget_s: float, known: list, seed: int
                     else:
                         status = VerificationStatus.CONFIRMED
                         res.completed += 1
+                        res.runs += max(1, _STATE.runs)
                         if _STATE.covers:
                             res.nontrivial += 1
                         for c in _STATE.covers:
